@@ -6,18 +6,21 @@ the top-level part of the package it touched after all edits:
 `apply` sets part := node; `MutRenderer` prints the (possibly off-schema) AST.  No judgement here.
 """
 import copy, hashlib, json
-from lib.swaygen import Renderer, r_type, r_lit, BINOPS
-from lib.semcheck import gen_package
+from lib.swaygen import Gen, Renderer, normalize, r_type, r_lit, BINOPS
 
 NCASE = 3
 
 
 def base_package(seed):
-    p = gen_package(seed, ncase=NCASE)
-    prog = dict(p["prog"])
+    """NCASE ordinary generated test cases over one set of declarations (no register-pressure case: its 50-deep
+    operator expression makes every ill-typed mutant hit the exponential type-checking time of finding
+    c17_deep_operator_expr_error_hang)."""
+    g = Gen(seed)
+    tests = [normalize(g.case("case_%d" % i)) for i in range(NCASE)]
+    prog = dict(normalize(g.prog))
     prog["dups"] = []
     prog["kind"] = "script"
-    return {"id": "g%d" % seed, "prog": prog, "tests": p["tests"]}
+    return {"id": "g%d" % seed, "prog": prog, "tests": tests}
 
 
 def mutant_key(rec):
